@@ -615,9 +615,10 @@ class Executor(ExprMixin, StmtMixin, LoopMixin):
         ln = z3.Length(lift(v))
         sol = z3.Solver()
         sol.set("timeout", 300)
-        for p in st.pc:
-            if not z3.is_quantifier(p):
-                sol.add(p)
+        from . import quick
+
+        for p in quick.cone([p for p in st.pc if not z3.is_quantifier(p)], [ln]):
+            sol.add(p)
         if sol.check() != z3.sat:
             return None
         try:
